@@ -18,6 +18,7 @@ import (
 	"context"
 	"errors"
 	"fmt"
+	"math"
 	"os"
 	"reflect"
 	"strings"
@@ -371,7 +372,7 @@ func (m *exMachine) ruleCall(t *rapid.T) {
 	style := rapid.SampledFrom([]string{"Call", "CallAfter", "CallAsync", "CallAfterAsync", "Start", "StartAfter", "Options", "Options", "OptionsStart"}).Draw(t, "style")
 	wait := time.Duration(0)
 	if strings.Contains(style, "After") || strings.HasPrefix(style, "Options") {
-		wait = rapid.SampledFrom([]time.Duration{-1, 0, 0, time.Millisecond, time.Hour}).Draw(t, "wait")
+		wait = rapid.SampledFrom([]time.Duration{-1, -time.Hour, math.MinInt64, 0, 0, time.Millisecond, time.Millisecond, time.Hour, time.Hour}).Draw(t, "wait")
 	}
 	c := &exCall{id: len(m.calls), key: key, style: style, wait: wait}
 	if wait < 0 {
